@@ -705,25 +705,25 @@ func getInodesStatsHandler() func(ctx *fasthttp.RequestCtx) {
 
 func uploadLookupFileHandler() func(ctx *fasthttp.RequestCtx) {
 	return func(ctx *fasthttp.RequestCtx) {
-		lookups.UploadLookupFile(ctx)
+		serverutils.CallWithMyIdQuery(lookups.UploadLookupFile, ctx)
 	}
 }
 
 func getAllLookupFilesHandler() func(ctx *fasthttp.RequestCtx) {
 	return func(ctx *fasthttp.RequestCtx) {
-		lookups.GetAllLookupFiles(ctx)
+		serverutils.CallWithMyIdQuery(lookups.GetAllLookupFiles, ctx)
 	}
 }
 
 func getLookupFileHandler() func(ctx *fasthttp.RequestCtx) {
 	return func(ctx *fasthttp.RequestCtx) {
-		lookups.GetLookupFile(ctx)
+		serverutils.CallWithMyIdQuery(lookups.GetLookupFile, ctx)
 	}
 }
 
 func deleteLookupFileHandler() func(ctx *fasthttp.RequestCtx) {
 	return func(ctx *fasthttp.RequestCtx) {
-		lookups.DeleteLookupFile(ctx)
+		serverutils.CallWithMyIdQuery(lookups.DeleteLookupFile, ctx)
 	}
 }
 
